@@ -83,6 +83,18 @@ def run(lines, out, args):
             elif f[0] == "decl":
                 a, _, _ = parse(f[3:], 0)
                 decls[f[1]] = Declaration(*a)
+            elif f[0] == "dpby":
+                # directlyProvides(ob, <interfaces and class specifications>) on an instance of a class that declares nothing, then
+                # directlyProvidedBy(ob): what was given, flattened in place without duplicates (the class part stripped, and
+                # `Interface` itself, which every class implements, is redundant)
+                from zope.interface import directlyProvides, directlyProvidedBy, alsoProvides
+                a, _, _ = parse(f[2:], 0)
+                ob = type("Plain", (), {})()
+                directlyProvides(ob, *a)
+                got = ids(list(directlyProvidedBy(ob)))
+                alsoProvides(ob)                      # (rebuilds the declaration from directlyProvidedBy: nothing may change)
+                if ids(list(directlyProvidedBy(ob))) != got:
+                    got += " ?changed-by-alsoProvides:" + ids(list(directlyProvidedBy(ob))).replace(" ", ",")
             elif f[0] == "iter":
                 A = operand(f[1])
                 got = ids(list(A) if not isinstance(A, InterfaceClass) else A.interfaces())
